@@ -287,7 +287,7 @@ def pin_check(prop):
     os.makedirs(rundir, exist_ok=True)
     tmp = os.path.join(rundir, "Pin_%s.v" % prop)
     shutil.copyfile(pin, tmp)
-    r = subprocess.run(["coqc", "-noglob", "-Q", COQ, "VP", tmp], capture_output=True, text=True, timeout=900, cwd=rundir)
+    r = subprocess.run(["coqc", "-noglob", "-w", "none", "-Q", COQ, "VP", tmp], capture_output=True, text=True, timeout=900, cwd=rundir)
     out = r.stdout + r.stderr
     closed, n_ax_blocks, axioms, in_ax = 0, 0, set(), False
     for ln in out.splitlines():
@@ -354,11 +354,16 @@ def coq_eval(prop, header, terms, typ="N", shards=None, per_file_timeout=900):
                 f.write("Definition case_%d : %s := %s.\n" % (k, "N" if typ == "N" else "list N", t))
             f.write("Definition all_cases : list (%s) := [%s].\n" % ("N" if typ == "N" else "list N", "; ".join("case_%d" % k for k in range(len(chunks[i])))))
             f.write("Eval vm_compute in all_cases.\n")
-        try:
-            r = subprocess.run(["coqc", "-noglob", "-Q", COQ, "VP", path], capture_output=True, text=True,
-                               timeout=per_file_timeout, cwd=rundir)
-        except subprocess.TimeoutExpired:
-            raise CheckError("coqc timed out on %s" % path)
+        for attempt in (1, 2):
+            try:
+                r = subprocess.run(["coqc", "-noglob", "-w", "none", "-Q", COQ, "VP", path], capture_output=True, text=True,
+                                   timeout=per_file_timeout, cwd=rundir)
+            except subprocess.TimeoutExpired:
+                raise CheckError("coqc timed out on %s" % path)
+            if r.returncode == 0:
+                break
+            # a second attempt distinguishes a transient failure of the machine (memory pressure, a killed process) from a real one
+            time.sleep(2)
         if r.returncode != 0:
             raise CheckError("coqc failed on %s:\n%s" % (path, (r.stdout + r.stderr)[-3000:]))
         out = r.stdout
@@ -396,7 +401,7 @@ def coq_show(prop, header, term):
     path = os.path.join(rundir, "show.v")
     with open(path, "w") as f:
         f.write(header + "\nSet Printing Width 200.\nSet Printing Depth 100000.\nEval vm_compute in (%s).\n" % term)
-    r = subprocess.run(["coqc", "-noglob", "-Q", COQ, "VP", path], capture_output=True, text=True, timeout=600, cwd=rundir)
+    r = subprocess.run(["coqc", "-noglob", "-w", "none", "-Q", COQ, "VP", path], capture_output=True, text=True, timeout=600, cwd=rundir)
     return (r.stdout + r.stderr)[-20000:]
 
 
